@@ -1977,6 +1977,19 @@ func (s *c07State) extremes() {
 		}
 	}
 	// streams
+	// FASTA records with an empty or one-character description under every
+	// mix of line ends, as the first and as the second record of a stream.
+	for _, hd := range []string{">", "> ", ">x", ">\t"} {
+		for _, he := range []string{"\n", "\r\n", "\r"} {
+			for _, be := range []string{"\n", "\r\n", "\r", ""} {
+				for _, body := range []string{"", "ACGT", "ACGT" + be + "GG", "\r", " "} {
+					one := hd + he + body + be
+					str("scan", fmt.Sprintf("short FASTA header %q head-eol=%q body=%q body-eol=%q", hd, he, body, be), "short-fasta-header", one)
+					str("scan", fmt.Sprintf("short FASTA header %q head-eol=%q body=%q body-eol=%q as second record", hd, he, body, be), "short-fasta-header", ">first\nAC\n"+one)
+				}
+			}
+		}
+	}
 	str("scan", "32768 empty FASTA records", "wide-list", strings.Repeat(">\n", c07MaxInput/2))
 	str("scan", "64 KiB of >", "wide-list", strings.Repeat(">", c07MaxInput))
 	str("scan", "one FASTA line of 64 KiB", "wide-list", ">x\n"+strings.Repeat("A", c07MaxInput-3))
